@@ -38,5 +38,5 @@ echo "suite_rc=$suite"
 cd /verif
 for c in $checks; do
   echo "== our check $c quick against the change"
-  VERIF_REPO=$scratch ./check $c quick 2>&1 | grep -v '^  ' | cut -c1-300 | tail -6
+  VERIF_REPO=$scratch ./check $c quick 2>&1 | grep -av "^  " | tr -d "\000" | cut -c1-300 | tail -6
 done
